@@ -328,11 +328,19 @@ type EncCase struct {
 	Ps      []ParaVal `json:"ps"`
 	AsSlice bool      `json:"asSlice"`
 	Direct  bool      `json:"direct,omitempty"` // hand the encoder control.Paragraph values themselves
+	// Split > 0 (with AsSlice): the first Split paragraphs go out as one slice, the rest one by one
+	// or as a second slice (SecondSlice) - one Encoder used for several calls of different shape
+	Split       int  `json:"split,omitempty"`
+	SecondSlice bool `json:"secondSlice,omitempty"`
 }
 
 func genEncCase(t *rapid.T) EncCase {
 	n := rapid.IntRange(1, 5).Draw(t, "n")
 	c := EncCase{AsSlice: rapid.Bool().Draw(t, "asSlice"), Direct: rapid.IntRange(0, 2).Draw(t, "direct") == 0}
+	if c.AsSlice && n >= 2 && rapid.Bool().Draw(t, "mixed") {
+		c.Split = rapid.IntRange(1, n-1).Draw(t, "split")
+		c.SecondSlice = rapid.Bool().Draw(t, "secondSlice")
+	}
 	withEmpty := rapid.IntRange(0, 3).Draw(t, "withEmpty") == 0
 	for i := 0; i < n; i++ {
 		if withEmpty && rapid.IntRange(0, 2).Draw(t, "empty") == 0 {
@@ -347,7 +355,7 @@ func genEncCase(t *rapid.T) EncCase {
 
 var specC08Encoder = Register(&Spec[EncCase]{
 	Prop: "C08", Name: "encoder",
-	Rule: "1..5 paragraphs (C08/write generator; in a quarter of the cases some of them without any field, as an all-empty struct encodes) carried by structs embedding control.Paragraph (2/3) or handed over as control.Paragraph values themselves (1/3) and written through ONE control.Encoder, either by successive Encode(&struct) calls or as one slice. Oracle: the output reads back as exactly the paragraphs that have fields, in order, with the same field order and values (up to one trailing newline) - a field-less paragraph has no textual form and must neither appear nor merge its neighbours. Non-trivial: >= 2 paragraphs; distinct by paragraph list.",
+	Rule: "1..5 paragraphs (C08/write generator; in a quarter of the cases some of them without any field, as an all-empty struct encodes) carried by structs embedding control.Paragraph (2/3) or handed over as control.Paragraph values themselves (1/3) and written through ONE control.Encoder, either by successive Encode(&struct) calls, as one slice, or as a slice followed by further single values or a second slice. Oracle: the output reads back as exactly the paragraphs that have fields, in order, with the same field order and values (up to one trailing newline) - a field-less paragraph has no textual form and must neither appear nor merge its neighbours. Non-trivial: >= 2 paragraphs; distinct by paragraph list.",
 	Check: func(c EncCase, r *Recorder) error {
 		hasEmpty := false
 		for _, p := range c.Ps {
@@ -381,6 +389,21 @@ var specC08Encoder = Register(&Spec[EncCase]{
 				for i := range ps {
 					if err := enc.Encode(&ps[i]); err != nil {
 						return errf("Encode(&control.Paragraph %d): %v", i, err)
+					}
+				}
+			}
+		} else if c.AsSlice && c.Split > 0 && c.Split < len(hs) {
+			if err := enc.Encode(hs[:c.Split]); err != nil {
+				return errf("Encode(first slice): %v", err)
+			}
+			if c.SecondSlice {
+				if err := enc.Encode(hs[c.Split:]); err != nil {
+					return errf("Encode(second slice): %v", err)
+				}
+			} else {
+				for i := c.Split; i < len(hs); i++ {
+					if err := enc.Encode(&hs[i]); err != nil {
+						return errf("Encode(&struct %d) after a slice: %v", i, err)
 					}
 				}
 			}
